@@ -424,10 +424,10 @@ def _recycle_processes(case, tally):
             for attempt in range(3):
                 c = socket.socket(socket.AF_UNIX)
                 c.settimeout(15.0)  # a watchdog, not a verdict: a replacement worker is a freshly spawned interpreter
+                buf = b""
                 try:
                     c.connect(path)
                     c.sendall(b"GET /r%d HTTP/1.1\r\nHost: h\r\nConnection: close\r\n\r\n" % i)
-                    buf = b""
                     while True:
                         x = c.recv(65536)
                         if not x:
@@ -444,6 +444,11 @@ def _recycle_processes(case, tally):
                     errors.append((i, "timeout"))
                     break
                 except OSError as e:
+                    if isinstance(e, (ConnectionResetError, BrokenPipeError)) and not buf and attempt < 2:
+                        # the same refusal seen as a reset: the worker closed a connection whose request it had not read (the kernel then
+                        # answers with RST instead of FIN); judged like the empty answer above
+                        retried.append(i)
+                        continue
                     errors.append((i, type(e).__name__))
                     break
                 finally:
